@@ -126,12 +126,9 @@ def targets():
 
                 # ---- the traversal, ASSUMED: it yields a sequence of n >= 1 tensors, the root last, and leaves the state used below alone
                 def traversal(ex_, st):
-                    st.env["ordered_nodes"] = Opaque("ordered_nodes")
-                    st.env["stack"] = Opaque("stack")
-                    for nm in ("node", "children", "child"):
-                        st.env[nm] = Opaque(nm)
-                    return None
-                ex.while_summaries = {"stack": traversal}
+                    return None             # the engine has already made every name the loop binds unknown; nothing else is assumed to have changed
+                import re
+                ex.while_summaries = {re.compile(r"[A-Za-z_]\w*"): traversal}          # `while <work list>:` whatever the list is called
 
                 def havoc(st, k):
                     st.glob["CNT"], st.glob["WHEN"], st.glob["GONE"] = z3.Array("calls_at_%s" % k, I, I), z3.Array("called_at_%s" % k, I, I), z3.Array("released_at_%s" % k, I, B)
@@ -149,8 +146,10 @@ def targets():
                 def bind(st, k):
                     nd = Obj("Node")
                     st.attrs(nd).update(pos=n - 1 - k, __is__={me.oid: (n - 1 - k == n - 1) if not z3.is_expr(k) else k == 0})
-                    return (k, nd)
-                ex.loop_contracts = {"enumerate(reversed(ordered_nodes))": LoopContract("sweep", lambda st: n, inv, havoc, bind, frame=("CNT", "WHEN", "GONE", "STEP"))}
+                    import ast as _ast
+                    return (k, nd) if isinstance(sweep.node.target, (_ast.Tuple, _ast.List)) else nd        # `for i, node in enumerate(reversed(order))` or `for node in reversed(order)`
+                sweep = LoopContract("sweep", lambda st: n, inv, havoc, bind, frame=("CNT", "WHEN", "GONE", "STEP"))
+                ex.loop_contracts = {re.compile(r"enumerate\(reversed\([A-Za-z_]\w*\)\)|reversed\([A-Za-z_]\w*\)"): sweep}
                 ctx = {"me": me, "g": g, "gkind": gkind, "had": had, "rq": rq, "size": size, "fp": fp, "match": match, "root_leaf": root_leaf, "d_data": d_data, "n": n, "q": q,
                        "done": done, "ones": ones}
                 return s, [me] + ([g] if g is not None else []), ctx
